@@ -32,6 +32,9 @@ def run(tier, seed):
     cases = lc.dedup(cases)
     verdicts = vlib.replay(cases, work, jobs=12, timeout_ms=10000, name="c01")
     r.add_cases(cases, verdicts, nontrivial=lc.nontrivial)
+    # impl -> spec: the interpreter's event trace of every program (first 1500 events) against spec/Vm.tla:
+    # every instruction's stack effect and next address, frames pushed / reused / popped as the op code says
+    vlib.vm_trace_check(r, cases, work, "c01", cap=1500)
     # the same programs as ONE MODULE each (how `steel file.scm` runs code: builtins resolve to #%prim.*, which
     # selects the specialised op codes, arity-free calls and the JIT's typed helpers)
     lc.replay_modules(vlib, cases, work, r, "c01.mod", nontriv=lc.nontrivial_mod)
